@@ -30,12 +30,18 @@ fn parse_sk(text: &str) -> Option<Vec<String>> {
     sv::parse_text(Grammar::Sv, text, false).ok().map(|(t, pp)| skeleton_no_resetall(&t, &pp))
 }
 
-/// One layout accepted, the other rejected: is the rejection an instance of listed finding K3 (the production memo
-/// capacity evicts; the unbounded table accepts under both keys)?
-fn k3_layout(rejected: &str) -> sv::K3Verdict {
-    match sv::pp_plain(rejected) {
-        Ok((t, _)) => sv::k3_explains_rejection(Grammar::Sv, t.text()),
-        Err(_) => sv::K3Verdict::NotExplained,
+fn parse_sk_lib(text: &str) -> Option<Vec<String>> {
+    sv::parse_text(Grammar::Lib, text, false).ok().map(|(t, pp)| skeleton_no_resetall(&t, &pp))
+}
+
+/// Does listed finding K3 touch one of the two layouts (the production memo configuration parses it differently
+/// from the unbounded table, which agrees with itself under both keys)? At the production capacity K3 shows as a
+/// rejection or as a different (shorter) tree, depending on where the white space stands.
+fn k3_layout(a: &str, b: &str) -> bool {
+    let pp = |x: &str| sv::pp_plain(x).map(|(t, _)| t.text().to_string()).ok();
+    match (pp(a), pp(b)) {
+        (Some(x), Some(y)) => sv::k3_touches(Grammar::Sv, &[(&x, false), (&y, false)]),
+        _ => false,
     }
 }
 
@@ -43,19 +49,15 @@ fn compare(ctx: &Ctx, a_text: &str, b_text: &str, what: &str, st: &mut Stats) ->
     let a = parse_sk(a_text);
     let b = parse_sk(b_text);
     let detail = || json!({"layout_a": a_text, "layout_b": b_text, "transformation": what});
-    if a.is_some() != b.is_some() && ctx.findings.is_known("C12", "K3") {
-        match k3_layout(if a.is_some() { b_text } else { a_text }) {
-            sv::K3Verdict::Explained => {
-                st.known("K3");
-                st.class("one layout rejected at the production memo capacity only (listed finding K3)");
-                return Ok(false);
-            }
-            sv::K3Verdict::Inconclusive => {
-                st.skip("rejection of one layout could not be attributed within the work budget");
-                return Ok(false);
-            }
-            sv::K3Verdict::NotExplained => {}
-        }
+    let differ = match (&a, &b) {
+        (Some(x), Some(y)) => first_diff(x, y).is_some(),
+        (None, None) => false,
+        _ => true,
+    };
+    if differ && ctx.findings.is_known("C12", "K3") && k3_layout(a_text, b_text) {
+        st.known("K3");
+        st.class("one layout parsed differently at the production memo capacity than with the unbounded table (listed finding K3)");
+        return Ok(false);
     }
     match (a, b) {
         (Some(x), Some(y)) => {
@@ -137,9 +139,10 @@ impl Prop for C12 {
         if ra.is_some() == rb.is_some() {
             return Ok(false);
         }
-        match k3_layout(if ra.is_some() { b } else { a }) {
-            sv::K3Verdict::Explained => Ok(true),
-            _ => Err(Fail::new(format!("witness of {}: the layouts differ in acceptance but not in the listed way", f.id), json!({"layout_a": a, "layout_b": b}))),
+        if k3_layout(a, b) {
+            Ok(true)
+        } else {
+            Err(Fail::new(format!("witness of {}: the layouts differ in acceptance but not in the listed way", f.id), json!({"layout_a": a, "layout_b": b})))
         }
     }
     fn assumptions(&self) -> Vec<String> {
@@ -154,6 +157,7 @@ impl Prop for C12 {
             Campaign { name: "mutants", kind: Kind::Random { quick: 3000, thorough: 40000 }, tape_len: 1200 },
             Campaign { name: "corpus", kind: Kind::Random { quick: 3000, thorough: 40000 }, tape_len: 500 },
             Campaign { name: "resetall", kind: Kind::Random { quick: 1500, thorough: 20000 }, tape_len: 900 },
+            Campaign { name: "lib", kind: Kind::Random { quick: 3000, thorough: 40000 }, tape_len: 200 },
         ]
     }
     fn run(&self, ctx: &Ctx, campaign: &str, t: &mut Tape, st: &mut Stats) -> Result<(), Fail> {
@@ -161,6 +165,27 @@ impl Prop for C12 {
         let mut cfg = TriviaCfg::full();
         cfg.formfeed = true;
         match campaign {
+            "lib" => {
+                // library maps: the same tokens under two white-space layouts (parse_lib_str)
+                let toks = crate::gen::libgen::generate_tokens(t);
+                let a = crate::gen::libgen::render_tokens(&toks, t);
+                let b = crate::gen::libgen::render_tokens(&toks, t);
+                let (ra, rb) = (parse_sk_lib(&a), parse_sk_lib(&b));
+                let detail = || json!({"layout_a": a, "layout_b": b, "transformation": "white-space runs of a library map replaced"});
+                match (ra, rb) {
+                    (Some(x), Some(y)) => {
+                        if let Some((i, p, q)) = first_diff(&x, &y) {
+                            return Err(Fail::new(format!("library map: trees differ at skeleton index {}: {:?} vs {:?}", i, p, q), detail()));
+                        }
+                        st.class("library map accepted under both layouts, equal trees");
+                        if toks.len() >= 6 {
+                            st.nontrivial(digest(format!("{}\u{1}{}", a, b).as_bytes()), || json!({"campaign": campaign, "layout_b": clip(&b, 300)}));
+                        }
+                    }
+                    (None, None) => st.class("library map rejected under both layouts"),
+                    _ => return Err(Fail::new("library map: accepted under one layout, rejected under the other", detail())),
+                }
+            }
             "svgen" | "mutants" => {
                 let mut p = svgen::generate_mixed(t, &svgen::Cfg::default());
                 if campaign == "mutants" {
@@ -215,7 +240,7 @@ impl Prop for C12 {
                     }
                 }
                 // not before a leading timeunits declaration: that one is not a description and must stay first
-                if t.chance(1, 3) && !p.toks.first().map(|x| x.text == "timeunit").unwrap_or(false) {
+                if t.chance(1, 3) && !p.toks.first().map(|x| x.text == "timeunit" || x.text == "timeprecision").unwrap_or(false) {
                     cuts.push(0);
                 }
                 if t.chance(1, 3) {
